@@ -22,7 +22,7 @@ pub fn meta() -> PropMeta {
     PropMeta {
         id: "C09",
         level: "exploration",
-        rule: "a real Receiver (credit policy Auto(n), n in {1,2,3,4,10,200}, or Manual) talks to a scripted sender with an arbitrary initial-delivery-count (incl. values near 2^32); generated histories, executed step-wise: peer deliveries of 1-3 frames sent only while the latest flow leaves credit, application recv+accept one by one, recv k then accept_all, reject, recv without disposing, set_credit(k), drain (under either policy), a peer flow restating its delivery-count, and finally optionally one delivery beyond the credit. Oracle: every flow from the receiver reports delivery-count in [initial + deliveries the application had received, initial + deliveries arrived] and link-credit equal to the policy's intent (set_credit value / Auto maximum on refresh / remaining credit on drain); whenever the application has received and disposed of everything that arrived under Auto(n), the latest flow leaves credit outstanding (a credit-respecting sender never stalls, streams of 6n+ deliveries complete); a delivery beyond the credit is not returned by recv: recv fails with TransferLimitExceeded and the detach carries amqp:link:transfer-limit-exceeded. Non-trivial: stream longer than the credit, or an overrun injected; distinct by hash of the case.",
+        rule: "a real Receiver (credit policy Auto(n), n in {1,2,3,4,10,200}, or Manual) talks to a scripted sender with an arbitrary initial-delivery-count (incl. values near 2^32); generated histories, executed step-wise: peer deliveries of 1-3 frames (unsettled or pre-settled) sent only while the latest flow leaves credit, application recv+accept one by one, recv k then accept_all, reject, recv without disposing, set_credit(k), drain (under either policy), a peer flow restating its delivery-count, and finally optionally one delivery beyond the credit. Oracle: every flow from the receiver reports delivery-count in [initial + deliveries the application had received, initial + deliveries arrived] and link-credit equal to the policy's intent (set_credit value / Auto maximum on refresh / remaining credit on drain); whenever the application has received and disposed of everything that arrived under Auto(n), the latest flow leaves credit outstanding (a credit-respecting sender never stalls, streams of 6n+ deliveries complete); a delivery beyond the credit is not returned by recv: recv fails with TransferLimitExceeded and the detach carries amqp:link:transfer-limit-exceeded. Non-trivial: stream longer than the credit, or an overrun injected; distinct by hash of the case.",
         assumptions: &[
             "delivery-count in a flow may lie anywhere between the count the application had taken and the count that arrived (the code advances it when the application takes the delivery)",
             "replenishment is only claimed for applications that dispose of what they receive",
@@ -37,7 +37,13 @@ pub fn meta() -> PropMeta {
 #[derive(Clone, Debug, Serialize, Deserialize, Hash)]
 pub enum Op {
     /// peer sends deliveries while credit remains (at most n)
-    PeerSend { n: u8, frames: u8 },
+    PeerSend {
+        n: u8,
+        frames: u8,
+        /// the deliveries are sent pre-settled
+        #[serde(default)]
+        settled: bool,
+    },
     /// application receives one delivery and: 0 accepts, 1 rejects, 2 releases, 3 keeps it undisposed
     Recv { how: u8 },
     /// application receives k deliveries then accept_all
@@ -65,7 +71,7 @@ pub struct Case {
 
 fn op() -> BoxedStrategy<Op> {
     prop_oneof![
-        6 => (1u8..8, 1u8..4).prop_map(|(n, frames)| Op::PeerSend { n, frames }),
+        6 => (1u8..8, 1u8..4, prop::bool::weighted(0.3)).prop_map(|(n, frames, settled)| Op::PeerSend { n, frames, settled }),
         6 => prop_oneof![6 => Just(0u8), 1 => Just(1u8), 1 => Just(2u8), 1 => Just(3u8)].prop_map(|how| Op::Recv { how }),
         3 => (1u8..7).prop_map(|k| Op::RecvBatch { k }),
         2 => prop_oneof![Just(0u32), Just(1), Just(2), 3u32..12].prop_map(Op::SetCredit),
@@ -280,7 +286,7 @@ pub async fn run_async(c: &Case, on_take_open: bool, excluded: &std::cell::Cell<
     for (k, op) in c.ops.iter().enumerate() {
         let what = format!("step {k} {:?}", op);
         match op {
-            Op::PeerSend { n, frames } => {
+            Op::PeerSend { n, frames, settled } => {
                 for _ in 0..*n {
                     if arrived >= limit {
                         break;
@@ -296,7 +302,7 @@ pub async fn run_async(c: &Case, on_take_open: bool, excluded: &std::cell::Cell<
                     for (i, part) in payload_full.chunks(chunk).enumerate() {
                         let last = (i + 1) * chunk >= payload_full.len();
                         let body = if i == 0 {
-                            Peer::transfer_body(ph, Some(next_delivery_id), Some(&tag), Some(0), Some(false), !last, None, false)
+                            Peer::transfer_body(ph, Some(next_delivery_id), Some(&tag), Some(0), Some(*settled), !last, None, false)
                         } else {
                             Peer::transfer_body(ph, None, None, None, None, !last, None, false)
                         };
